@@ -3,6 +3,7 @@ package checks
 import (
 	"context"
 	"crypto/rand"
+	"crypto/sha512"
 	"fmt"
 	"math/big"
 	"sort"
@@ -21,6 +22,7 @@ import (
 	"github.com/bnb-chain/tss-lib/v2/tss"
 
 	"verif/core"
+	"verif/ref"
 	"verif/sim"
 )
 
@@ -231,6 +233,13 @@ func c05Gen(tier string, seed int64) []core.Case {
 		sc := sessCfg{"eddsa-signing", 3, 1, []int{0, 1, 2}, 0, 0, "seeded", 0.5}
 		id := "eddsa-signing/signer-with-a-small-order-component-in-its-nonce-point@mid"
 		cs = append(cs, core.Case{ID: id, Class: id, Kind: "torsion-signer", P: sc.P(), Cost: 1})
+		// the variant the receivers can repair: the proof is the honest one for the prime-order part R, and the signer's
+		// round-3 share is computed for R as well. After cofactor clearing everything is consistent: the session must
+		// either finish with a valid signature or blame exactly the deviating signer
+		id2 := "eddsa-signing/signer-with-a-small-order-component-and-an-honest-proof@mid"
+		p2 := sc.P()
+		p2["honestproof"] = true
+		cs = append(cs, core.Case{ID: id2, Class: id2, Kind: "torsion-signer", P: p2, Cost: 1})
 	}
 	for _, sc := range smallFaultSessions() {
 		for fiI, fi := range staticFields[sc.proto] {
@@ -314,8 +323,11 @@ func c05Run(c core.Case, env *core.Env) core.Result {
 		fr, err = runWeakParams(s, c.P.Str("fpos"), c.P.Str("weak"))
 		f = faultSpec{Type: "(pre-parameters)", Field: c.P.Str("weak"), How: "weak-params", Pos: c.P.Str("fpos")}
 	case "torsion-signer":
-		fr, err = runTorsionSigner(s)
+		fr, err = runTorsionSigner(s, c.P.Bool("honestproof"))
 		f = faultSpec{Type: "(crafted nonce point)", Field: "*", How: "torsion-dealer", Pos: "mid"}
+		if c.P.Bool("honestproof") {
+			f.How = "torsion-cleared"
+		}
 	case "torsion-dealer":
 		fr, err = runTorsionDealer(s)
 		f = faultSpec{Type: "(crafted dealing)", Field: "*", How: "torsion-dealer", Pos: "mid"}
@@ -807,7 +819,7 @@ func runTorsionDealer(s *session) (*faultRun, error) {
 
 // runTorsionSigner: EdDSA signing; the deviating signer commits to R + T (T of order 2), opens it and proves knowledge of
 // log R with a proof re-drawn until it verifies for R + T. Its round-3 message stays whatever the real party sends.
-func runTorsionSigner(s *session) (*faultRun, error) {
+func runTorsionSigner(s *session, honestProof bool) (*faultRun, error) {
 	w, in, err := s.make(s.env.Seed + 37)
 	if err != nil {
 		return nil, err
@@ -854,12 +866,16 @@ func runTorsionSigner(s *session) (*faultRun, error) {
 	}
 	cmtR := commitments.NewHashCommitment(rand.Reader, Rs.X(), Rs.Y())
 	var pf *schnorr.ZKProof
-	for tries := 0; tries < 200; tries++ {
+	Rclean := crypto.ScalarBaseMult(ec, rr)
+	for tries := 0; tries < 200 && !honestProof; tries++ {
 		p, err := schnorr.NewZKProof(ctx, rr, Rs, rand.Reader)
 		if err == nil && p.Verify(ctx, Rs) {
 			pf = p
 			break
 		}
+	}
+	if honestProof {
+		pf, _ = schnorr.NewZKProof(ctx, rr, Rclean, rand.Reader)
 	}
 	if pf == nil {
 		return nil, fmt.Errorf("could not grind a Schnorr proof for the shifted nonce point")
@@ -873,6 +889,7 @@ func runTorsionSigner(s *session) (*faultRun, error) {
 	}
 	r1 := wireOf(eddsasigning.NewSignRound1Message(fr.dev.PID, cmtR.C))
 	r2 := wireOf(eddsasigning.NewSignRound2Message(fr.dev.PID, cmtR.D, pf))
+	var r3 []byte
 	w.Rewrite = func(w *sim.World, m *sim.Msg, to *sim.Node) ([]byte, bool, *tss.PartyID, bool) {
 		if m.From != fr.dev {
 			return m.Wire, m.Bcast, m.From.PID, false
@@ -883,6 +900,49 @@ func runTorsionSigner(s *session) (*faultRun, error) {
 			return r1, m.Bcast, m.From.PID, false
 		case "SignRound2Message":
 			return r2, m.Bcast, m.From.PID, false
+		case "SignRound3Message":
+			if !honestProof {
+				break
+			}
+			// s_D = r + h*w_D with h = SHA-512(enc(R) || enc(A) || M) reduced, R the sum of the cleared nonce points
+			if r3 == nil {
+				agg := refPt(Rclean)
+				for _, o := range w.Msgs {
+					if o.Short != "SignRound2Message" || o.From == fr.dev {
+						continue
+					}
+					if dc, err := sim.GetField(o.Wire, "de_commitment"); err == nil && len(dc) == 3 {
+						agg = ref.EdAdd(agg, ref.Pt{X: new(big.Int).SetBytes(dc[1]), Y: new(big.Int).SetBytes(dc[2])})
+					}
+				}
+				encR, encA := ref.EdEncode(agg), ref.EdEncode(refPt(es.d[0].EDDSAPub))
+				hh := sha512.New()
+				hh.Write(encR[:])
+				hh.Write(encA[:])
+				hh.Write(s.Msg.Bytes())
+				sum := hh.Sum(nil)
+				for i, j := 0, len(sum)-1; i < j; i, j = i+1, j-1 {
+					sum[i], sum[j] = sum[j], sum[i]
+				}
+				hInt := new(big.Int).Mod(new(big.Int).SetBytes(sum), q)
+				var xD *big.Int
+				for k := range es.d {
+					if es.d[k].ShareID.Cmp(fr.dev.PID.KeyInt()) == 0 {
+						xD = es.d[k].Xi
+					}
+				}
+				idx := 0
+				for i, id := range ids {
+					if id.Cmp(fr.dev.PID.KeyInt()) == 0 {
+						idx = i
+					}
+				}
+				wD := new(big.Int).Mul(ref.LagrangeAt(ids, idx, new(big.Int), q), xD)
+				sD := new(big.Int).Add(rr, new(big.Int).Mul(hInt, wD))
+				sD.Mod(sD, q)
+				r3 = wireOf(eddsasigning.NewSignRound3Message(fr.dev.PID, sD))
+			}
+			return r3, m.Bcast, m.From.PID, false
 		}
 		return m.Wire, m.Bcast, m.From.PID, false
 	}
